@@ -162,6 +162,7 @@ func cmdCheck(args []string) int {
 	tier := fs.String("tier", "", "quick|thorough")
 	keep := fs.Bool("keep", false, "keep SMT files")
 	to := fs.Int("t", 0, "solver timeout (s)")
+	noev := fs.Bool("noevidence", false, "do not write the evidence file (must-fail runs)")
 	deps := fs.Bool("deps", false, "audit: also verify the callees whose contracts the proofs apply")
 	fs.Parse(args)
 	if *tier == "" {
@@ -184,7 +185,7 @@ func cmdCheck(args []string) int {
 		fmt.Printf("VIOLATION property=%s replay=none:load-failure no-failing-input-found\n", *prop)
 		return 1
 	}
-	return P.Check(vc.CheckOpts{Property: *prop, Tier: *tier, Seed: seed, VerifDir: *verif, TimeoutS: *to, Keep: *keep, Deps: *deps,
+	return P.Check(vc.CheckOpts{Property: *prop, Tier: *tier, Seed: seed, VerifDir: *verif, TimeoutS: *to, Keep: *keep, Deps: *deps, NoEvidence: *noev,
 		CheckerCmd: "bin/lvc check -p " + *prop + " -tier " + *tier})
 }
 
